@@ -218,12 +218,15 @@ impl<'de> serde::de::Visitor<'de> for CfgFileVisitor {
 
         let extensions = extensions.unwrap_or_default();
 
+        // the default locale is always a locale, even when not listed in "locales"
+        let is_known = |locale: &Key| locales.contains(locale) || locale == &default;
+
         for (k, v) in &extensions {
-            if !locales.contains(k) {
+            if !is_known(k) {
                 return Err(serde::de::Error::custom(format!("unknown locale {:?}", k)));
             }
 
-            if !locales.contains(v) {
+            if !is_known(v) {
                 return Err(serde::de::Error::custom(format!("unknown locale {:?}", v)));
             }
         }
